@@ -1,6 +1,7 @@
 package sam
 
 import (
+	"bytes"
 	biogosam "github.com/biogo/hts/sam"
 )
 
@@ -326,4 +327,115 @@ func VH_C02_two_insertions() {
 			col++
 		}
 	}
+}
+
+// VH_C02_three_records: a query with THREE records: one with an insertion (M I M), one plain match block, one
+// with a deletion (M D M); symbolic positions and lengths; any of the two file orders of the first two.
+func VH_C02_three_records() {
+	L := vParam("L")
+	ref := make([]byte, L)
+	for i := range ref {
+		ref[i] = vNuc(vName("ref", i), "ACGT")
+	}
+	mk := func(name string, r int, shape []int) vRec {
+		var v vRec
+		v.pos = vChoice(vName("pos", r), L)
+		qlen, rlen := 0, 0
+		var cig biogosam.Cigar
+		for k, t := range shape {
+			n := 1 + vChoice(vName("len", r, k), 2)
+			if t == vM && k > 0 && k == len(shape)-1 {
+				n = vChoice(vName("len", r, k), 3) // trailing block may be absent
+				if n == 0 {
+					continue
+				}
+			}
+			v.types = append(v.types, t)
+			v.lens = append(v.lens, n)
+			switch t {
+			case vM:
+				qlen += n
+				rlen += n
+			case vI:
+				qlen += n
+			case vD:
+				rlen += n
+			}
+			cig = append(cig, biogosam.NewCigarOp(biogosam.CigarOpType(t), n))
+		}
+		vAssume(v.pos+rlen <= L)
+		v.seq = make([]byte, qlen)
+		for i := range v.seq {
+			v.seq[i] = vNuc(vName("seq", r, i), vSeqAlphabet)
+		}
+		v.rec = biogosam.Record{Name: name, Pos: v.pos, Cigar: cig, Seq: biogosam.NewSeq(v.seq)}
+		return v
+	}
+	a := mk("query", 0, []int{vM, vI, vM})
+	b := mk("query", 1, []int{vM})
+	c := mk("query", 2, []int{vM, vD, vM})
+	vs := []vRec{a, b, c}
+	if vBool("swapFirstTwo") {
+		vs = []vRec{b, a, c}
+	}
+	recs := []biogosam.Record{vs[0].rec, vs[1].rec, vs[2].rec}
+	ins, unique := vInsertions(vs, L)
+	vAssume(unique)
+	cSR := make(chan samRecords, 1)
+	cSR <- samRecords{records: recs, idx: 0}
+	close(cSR)
+	cPair := make(chan alignPair, 1)
+	cErr := make(chan error, 8)
+	blockToPairwiseAlignment(cSR, cPair, cErr, append([]byte{}, ref...), false)
+	vAssert("C02.3rec.one-pair", len(cPair) == 1 && len(cErr) == 0)
+	if len(cPair) != 1 {
+		return
+	}
+	pair := <-cPair
+	R, Q := pair.ref, pair.query
+	padrow, err := getSeqFromBlock(recs, L, false)
+	vAssert("C02.3rec.toma-ok", err == nil && len(padrow) == L)
+	padrow = swapInNs(padrow)
+	total := L
+	for p := 0; p <= L; p++ {
+		total += len(ins[p])
+	}
+	vAssert("C02.3rec.length-is-reference-plus-insertions", len(R) == total && len(Q) == total)
+	if len(R) != total || len(Q) != total {
+		return
+	}
+	col := 0
+	for p := 0; p <= L; p++ {
+		for _, bb := range ins[p] {
+			vAssert("C02.3rec.reference-gap-exactly-at-insertion-columns", R[col] == '-' && Q[col] == bb)
+			col++
+		}
+		if p < L {
+			vAssert("C02.3rec.rows-are-reference-and-toMultiAlign-pad-row", R[col] == ref[p] && Q[col] == padrow[p])
+			col++
+		}
+	}
+}
+
+// VH_C02_files: toPairAlign into a directory: one file per query, named after the query ('/' replaced),
+// holding the reference and query rows (or the query row only with --omit-reference), wrapped as asked.
+func VH_C02_files() {
+	samTxt := "@HD\tVN:1.6\n@SQ\tSN:ref\tLN:8\n" +
+		"q/a/1\t0\tref\t2\t60\t3M1I2M\t*\t0\t0\tAC" + string([]byte{vNuc("x", "ACGT")}) + "TAC\t*\n" +
+		"q2\t0\tref\t1\t60\t2M2D4M\t*\t0\t0\tGCATTA\t*\n"
+	refTxt := ">ref\nACGTACGT\n"
+	omit := vBool("omitReference")
+	wrapw := []int{0, 4}[vChoice("wrap", 2)]
+	dir := vDir() + "/pairs"
+	err := ToPairAlign(bytes.NewReader([]byte(samTxt)), bytes.NewReader([]byte(refTxt)), dir, wrapw, -1, -1, omit, false, 2)
+	vAssert("C02.files.run-ok", err == nil)
+	// the same pairs through the stdout writer
+	vStdoutCapture()
+	err2 := ToPairAlign(bytes.NewReader([]byte(samTxt)), bytes.NewReader([]byte(refTxt)), "stdout", wrapw, -1, -1, omit, false, 1)
+	all := vStdout()
+	vAssert("C02.files.stdout-run-ok", err2 == nil && len(all) > 0)
+	f1 := vReadFile(dir + "/q_a_1.fasta")
+	f2 := vReadFile(dir + "/q2.fasta")
+	vAssert("C02.files.one-file-per-query-named-after-it", len(f1) > 0 && len(f2) > 0)
+	vAssert("C02.files.files-hold-the-pairs-in-stdout-form", f1+f2 == all)
 }
